@@ -109,7 +109,90 @@ fn recovery() -> Vec<HOp> {
 }
 
 fn units(_tier: &str) -> usize {
-    grid().len() + dup_cases().len()
+    grid().len() + dup_cases().len() + NG.len()
+}
+
+// ---------------------------------------------------------------- current file on a full device
+
+/// The file the logger opens first is a symlink to /dev/full (planted when the logger is about
+/// to open it): every write really fails with ENOSPC. Each failure must be reported, and - the
+/// file holds nothing - the size criterion must not close it (C08: no file is closed early).
+fn run_cur_full(naming: NamingK) -> Result<usize, Fail> {
+    let env = Env::new("c19c");
+    env.enter();
+    let cfg = Cfg::rot(CritK::Size(LIMIT), naming, CleanK::Never);
+    let planted: std::sync::Arc<std::sync::Mutex<Option<std::path::PathBuf>>> = std::sync::Arc::new(std::sync::Mutex::new(None));
+    {
+        let planted = std::sync::Arc::clone(&planted);
+        let mut g = env.ctx.fs.lock().unwrap();
+        g.enabled = true;
+        g.on_hit = Some(Box::new(move |site, _occ, _idx, path| {
+            let mut p = planted.lock().unwrap();
+            if site == "open" && p.is_none() {
+                std::os::unix::fs::symlink("/dev/full", path).ok();
+                *p = Some(path.to_path_buf());
+            }
+        }));
+    }
+    let mut h = Hist::new(&env, cfg.clone());
+    let mut reported = 0;
+    for i in 0..6 {
+        let before = env.errlines().len();
+        if let Err(crate::fl::StepErr::Build(e)) = h.apply(HOp::W(20)) {
+            return Err(Fail {
+                clause: "run-error",
+                detail: format!("build: {e}"),
+            });
+        }
+        let after = env.errlines().len();
+        if after == before {
+            return Err(Fail {
+                clause: "not-reported",
+                detail: format!("write {i} went to a full device (ENOSPC) but nothing was written to the error channel"),
+            });
+        }
+        reported += after - before;
+        let names = family::list_names(&env.dir);
+        let victim = planted.lock().unwrap().clone();
+        let victim_name = victim.as_ref().and_then(|p| p.file_name()).map(|f| f.to_string_lossy().to_string());
+        if names.len() != 1 || names.first() != victim_name.as_ref() {
+            return Err(Fail {
+                clause: "closed-early",
+                detail: format!("after {} failed writes (nothing is in the file) the directory holds {names:?}: the size criterion closed {victim_name:?} although it holds no more than the limit", i + 1),
+            });
+        }
+    }
+    h.stop();
+    drop(h);
+    env.leave();
+    Ok(reported)
+}
+
+fn run_cur_full_unit(idx: usize, unit: usize, out: &mut Out) {
+    let naming = NG[idx];
+    let case = json!({"unit": unit, "cur_full": idx});
+    let cause = format!("current-file-on-full-device/{}", naming.short());
+    let mut vs = Vec::new();
+    for _ in 0..2 {
+        out.evaluations += 1;
+        out.transitions += 6;
+        match run_isolated(Duration::from_secs(30), move || run_cur_full(naming)) {
+            Ran::Done(Ok(n)) => {
+                out.outcome(format!("current file full: error lines={}", n.min(9)));
+                break;
+            }
+            Ran::Done(Err(f)) => vs.push(Violation::new(f.clause, cause.clone(), format!("naming {naming:?}, direct mode, size limit {LIMIT}, six records of 20 bytes; the first file the logger opens is a symlink to /dev/full\n  {}", f.detail), case.clone())),
+            Ran::Panicked(m) => vs.push(Violation::new("panic", cause.clone(), m, case.clone())),
+            Ran::Hung => vs.push(Violation::new("hang", cause.clone(), String::new(), case.clone())),
+        }
+    }
+    out.state(&(unit, "cur_full"));
+    out.nontrivial(&(unit, "cur_full"));
+    if vs.len() == 2 && vs[0].key() == vs[1].key() {
+        out.violation(vs.remove(0));
+    } else if !vs.is_empty() {
+        out.violation(Violation::new("nondeterministic", "replay-diverged", vs[0].detail.clone(), case));
+    }
 }
 
 // ---------------------------------------------------------------- failing duplicate stream
@@ -597,6 +680,10 @@ fn judge_df(c: &Case, faults: &[FaultSpec], dev_full: Option<String>, unit: usiz
 
 fn run_unit(tier: &str, unit: usize, out: &mut Out) {
     let g = grid();
+    if unit >= g.len() + dup_cases().len() {
+        run_cur_full_unit(unit - g.len() - dup_cases().len(), unit, out);
+        return;
+    }
     if unit >= g.len() {
         run_dup_unit(unit - g.len(), unit, out);
         return;
@@ -696,6 +783,12 @@ fn run_unit(tier: &str, unit: usize, out: &mut Out) {
 fn replay(case: &Value) -> Vec<Violation> {
     let g = grid();
     let unit = case["unit"].as_u64().unwrap_or(0) as usize;
+    if let Some(idx) = case["cur_full"].as_u64() {
+        let mut out = Out::default();
+        println!("replay C19: current file on a full device, naming {:?}", NG.get(idx as usize));
+        run_cur_full_unit(idx as usize, unit, &mut out);
+        return out.violations;
+    }
     if let Some(idx) = case["dup"].as_u64() {
         let mut out = Out::default();
         println!("replay C19: failing duplicate stream, case {:?}", dup_cases().get(idx as usize));
